@@ -41,7 +41,7 @@ def run(repo, tier) -> Result:
     check_writes("C01", res, repo, cas)
     check_state("C01", res, repo, formula_functions(repo))
     check_calculate_driver("C01", res, repo, want=("R-SKIP", "R-SWEEP", "R-SUBS"))
-    check_resume("C01", res, repo.method("hexital.core.indicator", "Indicator", "_find_calc_index"), "self.candles", "membership")
+    check_resume("C01", res, repo.method("hexital.core.indicator", "Indicator", "_find_calc_index"), "self.candles", "membership", repo=repo)
     check_append_order("C01", res, repo, parts=("indicator", "manager"))
     check_merge("C01", res, repo)
     from ..driver import check_merge_callers
